@@ -1,6 +1,6 @@
 #!/bin/bash
 # Must-fail corpus for the machinery itself: every seeded change under /verif/seeded whose meta.json
-# names a detecting check is applied to /repo in turn and that check must report a VIOLATION;
+# names a detecting check is applied to a scratch worktree of /repo's HEAD in turn (tools/seedrun.sh) and that check must report a VIOLATION;
 # the unchanged tree must report none. Run after every change to the engine or the contracts.
 # usage: tools/selftest.sh [seed-id ...]      (default: all seeds with detected_by)
 cd /verif
@@ -15,7 +15,10 @@ for m in sorted(glob.glob('/verif/seeded/*/meta.json')):
 PY
 )
 for s in $seeds; do
-  prop=$(python3 -c "import json;d=json.load(open('/verif/seeded/$s/meta.json'));import re;print(re.match(r'C[0-9]+',d['detected_by']).group(0))")
+  prop=$(python3 -c "
+import json,re
+d=json.load(open('/verif/seeded/$s/meta.json'))['detected_by']
+print(d['property'] if isinstance(d,dict) else re.match(r'C[0-9]+',d).group(0))")
   out=$(tools/seedrun.sh /verif/seeded/$s/patch.diff $prop 2>&1)
   n=$(echo "$out" | grep -c "^VIOLATION property=$prop")
   if [ "$n" -ge 1 ]; then echo "ok   $s detected by $prop ($n)"; else echo "MISS $s not detected by $prop"; fail=1; fi
